@@ -18,7 +18,7 @@ pub fn run(args: &Args) -> i32 {
   let rule = match prop {
     Prop::C01 => "random DATA/DATAFRAG/GAP/HEARTBEAT histories from 1-3 writers with drop/dup/reorder and interleaved read/take ops on 4 reader flavours; distinct = hash of the post-fault arrival sequence (kind,writer,sn,frag); non-trivial = history had >=1 loss-or-dup and >=1 reorder and handed over >=1 sample",
     Prop::C03 => "same histories; every captured ACKNACK/NACKFRAG is decoded by an independent walker and judged against a set-logic shadow of what was injected; distinct = arrival-sequence hash; non-trivial = >=1 ACKNACK observed after >=1 fault",
-    Prop::C05 => "same histories; fragmented samples only; distinct = arrival-sequence hash; non-trivial = >=1 fragmented sample delivered after reordering or duplication",
+    Prop::C05 => "reader leg: same histories, fragments from the harness's own fragmenter (1-3 per submessage, fragment sizes 8-64, permuted/duplicated/interleaved across samples and writers); writer+reader leg: real Writer fragmenting (sizes 64/100/256/1024) over a faulty link into the real Reader; distinct = arrival-sequence hash (reader leg) / event+fault hash (link leg); non-trivial = >=1 fragmented sample delivered after reordering, duplication or loss",
   };
   let mut rep = Report::new(args, rule);
   rep.assume("reader QoS Reliable, KeepAll, max_samples 1e6 so resource limits are never exceeded (premise of C01)");
@@ -70,6 +70,15 @@ pub fn run(args: &Args) -> i32 {
       acc.sample(json!({"case": tag, "history": rdr::case_json(&case), "handed_over": out.handed, "acknacks": out.acknacks}), 2);
     }
   });
+  let mut acc = acc;
+  if prop == Prop::C05 {
+    // writer+reader leg: the real Writer fragments, a faulty link permutes/duplicates/drops,
+    // the real Reader reassembles; DATAFRAGs are checked byte for byte against the
+    // independent fragmenter.
+    let link_acc = crate::c_link::link_cases(args, crate::link::LProp::C05, args.scale(15_000, 600_000), 0x0515);
+    acc.merge(link_acc);
+    rep.require("link_fragmented_samples_delivered", 500);
+  }
   match prop {
     Prop::C01 => rep.require("samples_handed_over", 1000),
     Prop::C03 => rep.require("acknacks_observed", 500),
